@@ -49,6 +49,7 @@ type sessRun struct {
 	done     chan struct{} // all threads finished
 	finished atomic.Bool   // all threads finished without error
 	timeouts atomic.Int64
+	wtimeouts atomic.Int64 // Writes that returned (0, ErrTimeout) under a write deadline
 	stallMsg string // echo: a reply took longer than RoundBoundMs (guarded by mu)
 }
 
@@ -180,6 +181,30 @@ func plan(idx int, spec SessSpec) *sessRun {
 		}
 		s.threads[snd] = [][]op{w}
 		s.threads[1-snd] = [][]op{rd}
+	case "deadline":
+		// the client uploads multi-fragment messages, every Write under a write deadline, over a socket whose WriteTo stalls
+		// (the output loop holds the output lock meanwhile); then the server answers
+		c := []op{{kind: 'a'}, {kind: 'w', n: spec.FirstWrite}}
+		rest := spec.CBytes - spec.FirstWrite
+		for rest > 0 {
+			n := spec.MsgSize
+			if n > rest {
+				n = rest
+			}
+			rest -= n
+			c = append(c, op{kind: 'w', n: n, d: ms(spec.DeadlineMs)})
+		}
+		c = append(c, op{kind: 'r', n: spec.SBytes})
+		s.threads[0] = [][]op{c}
+		s.threads[1] = [][]op{append([]op{{kind: 'r', n: spec.CBytes}}, writes(r, spec.SBytes, 0, 64)...)}
+	case "close-loss":
+		// one round trip, a multi-fragment Write, Close at once; one of the fragments is lost (fault schedule)
+		c := []op{{kind: 'w', n: spec.FirstWrite}, {kind: 'r', n: spec.SFirst}, {kind: 'w', n: spec.CBytes - spec.FirstWrite}, {kind: 'x'}}
+		s.threads[0] = [][]op{c}
+		// the server keeps streaming after its short reply, so that it still has data to send and resend when the close request arrives
+		v := append([]op{{kind: 'r', n: spec.FirstWrite}}, writes(r, spec.SFirst, 0, 16)...)
+		v = append(v, writes(r, spec.SBytes-spec.SFirst, 0, 4096)...)
+		s.threads[1] = [][]op{v}
 	case "close-race":
 		// client: small first write, reads the reply (session established), then single-fragment messages back to back;
 		// a second client thread closes the session while a Write is in progress and the socket stalls
@@ -419,12 +444,52 @@ func runSchedule(sc *Schedule) *schedResult {
 			case 'w':
 				b := s.data[side][*woff : *woff+o.n]
 				*woff += o.n
+				if o.d > 0 {
+					// a Write under a write deadline (set before every Write): a Write that times out before any byte was taken
+					// (0, ErrTimeout) is retried with a longer deadline and finally without one; the session stays in use
+					dl := o.d
+					ok := false
+					for attempt := 0; attempt < 8 && !ok; attempt++ {
+						if s.closing.Load() {
+							return
+						}
+						mark("W", side, s, b)
+						if attempt < 6 {
+							c.SetWriteDeadline(time.Now().Add(dl))
+						} else {
+							c.SetWriteDeadline(time.Time{})
+						}
+						n, err := c.Write(b)
+						switch {
+						case err == nil && n == len(b):
+							ok = true
+						case n == 0 && errors.Is(err, stderror.ErrTimeout):
+							mark("U", side, s, nil) // nothing was written: take the W back
+							s.wtimeouts.Add(1)
+							dl *= 3
+							time.Sleep(time.Millisecond)
+						default:
+							s.fail("side %d Write(%d bytes at offset %d, deadline %v) returned (%d, %v)", side, len(b), *woff-o.n, dl, n, err)
+							return
+						}
+					}
+					c.SetWriteDeadline(time.Time{})
+					if !ok {
+						s.fail("side %d Write(%d bytes at offset %d) timed out 8 times", side, len(b), *woff-o.n)
+						return
+					}
+					continue
+				}
 				mark("W", side, s, b)
 				n, err := c.Write(b)
 				if err != nil || n != len(b) {
 					s.fail("side %d Write(%d bytes at offset %d) returned (%d, %v)", side, len(b), *woff-o.n, n, err)
 					return
 				}
+			case 'x':
+				// Close right away, with data still in flight (safety-only sessions)
+				closeSessionFrom(s, side, mark, &regMu)
+				return
 			case 'r':
 				left := o.n
 				rt0 := time.Now()
@@ -554,6 +619,9 @@ func runSchedule(sc *Schedule) *schedResult {
 	// end of the scenario: cut and close whatever is still open, never wait forever
 	for _, s := range res.sess {
 		closeSession(s, mark, &regMu)
+	}
+	if sc.PostCloseMs > 0 {
+		time.Sleep(ms(sc.PostCloseMs))
 	}
 	close(stopAccept)
 	rigDone := make(chan struct{})
